@@ -217,13 +217,117 @@ LOCALITY_OPS = frozenset((
 _DTOK = re.compile(r"^D(-?\d+):(\d+)$")
 
 
-def add_locality(reqs, rng, p=0.03):
-    """Temporal locality: now and then a request is followed by a close relative (one Decimal operand with the scale
-    changed by one, the coefficient shifted by a multiple of 2^64 or 2^32, negated, or re-expressed with a trailing
-    zero) and then by itself again - or simply repeated. Every line is still judged on its own by the exact oracle;
-    the point is the *sequence*: a memo, cache or lazily initialised table keyed on part of the operands (and any other
-    state carried from one call to the next) returns the relative's answer for the original."""
+_ALIAS_OPS = {"tof64": "tof32", "tof32": "tof64", "fromf32": "fromf64", "round": "cround", "cround": "round",
+              "add": "cadd", "cadd": "add", "sub": "csub", "csub": "sub", "mul": "cmul", "cmul": "mul",
+              "div": "cdiv", "cdiv": "div", "rem": "crem", "crem": "rem", "tostr": "strfrom", "strfrom": "tostr"}
+_FORM_FOR_CHECKED = {"av": "vv", "ar": "vr"}
+_TOINT_TYPES = ("u8", "i8", "u16", "i16", "u32", "i32", "u64", "i64", "u128", "i128")
+_M64 = (1 << 64) - 1
+
+
+def _xor_mag(c, mask):
+    a = (abs(c) ^ mask) & ((1 << 127) - 1)
+    return a if c >= 0 else -a
+
+
+def _relative(rng, toks, idx):
+    """One close relative of the request `toks` (list of tokens; idx = positions of the Decimal operands), or None."""
     M = O.M
+    v = list(toks)
+    k = rng.randrange(14)
+    i = rng.choice(idx)
+    m = _DTOK.match(toks[i])
+    c, s = int(m.group(1)), int(m.group(2))
+    c2, s2 = c, s
+    if k == 0:
+        s2 = s + rng.choice((1, -1))
+    elif k == 1:
+        c2 = c + rng.choice((1, -1, 3)) * (1 << rng.choice((64, 64, 32, 96)))
+    elif k == 2:
+        c2 = -c
+    elif k == 3:
+        c2, s2 = c * 10, s + 1
+    elif k == 4:
+        c2 = _xor_mag(c, 1 << rng.randrange(112, 127))          # a key that drops the high bits
+    elif k == 5:
+        c2 = _xor_mag(c, 1 << rng.randrange(0, 127))
+    elif k == 6:
+        c2 = c + rng.choice((1, -1))
+    elif k == 7:
+        # xor-fold twins: the same delta in both 64-bit limbs (tag hi ^ lo), or rotated by 32 (tag lo ^ rotl32(hi)),
+        # or the limbs swapped
+        d = rng.getrandbits(rng.choice((8, 31, 62)))
+        kind = rng.randrange(3)
+        if kind == 0:
+            c2 = _xor_mag(c, (d << 64) | d)
+        elif kind == 1:
+            e = rng.getrandbits(62)
+            r32 = ((e << 32) | (e >> 32)) & _M64
+            c2 = _xor_mag(c, (e << 64) | r32)
+        else:
+            a = abs(c)
+            a = ((a & _M64) << 64 | (a >> 64)) & ((1 << 127) - 1)
+            c2 = a if c >= 0 else -a
+    elif k == 8 and len(idx) >= 2:
+        # coordinated change of two operands: the same delta in both (tag x ^ y), or with the halves swapped in the
+        # second (tag rotl64(x) ^ y)
+        i2 = rng.choice([t for t in idx if t != i])
+        m2 = _DTOK.match(toks[i2])
+        cb, sb = int(m2.group(1)), int(m2.group(2))
+        d = rng.getrandbits(126)
+        if rng.random() < 0.5:
+            d2 = d
+        else:
+            d2 = ((d & _M64) << 64 | (d >> 64)) & ((1 << 127) - 1)
+        c2 = _xor_mag(c, d)
+        cb2 = _xor_mag(cb, d2)
+        if abs(cb2) > M or (cb2 == 0 and cb != 0):
+            return None
+        v[i2] = "D%d:%d" % (cb2, sb)
+    elif k == 9 and len(idx) >= 2:
+        # scales packed into one key with a radix that is one too small: (18, q) and (0, q + 1) share the key
+        i2 = rng.choice([t for t in idx if t != i])
+        m2 = _DTOK.match(toks[i2])
+        cb, sb = int(m2.group(1)), int(m2.group(2))
+        if s == 18 and sb < 18:
+            s2, sb2 = 0, sb + 1
+        elif s == 0 and sb > 0:
+            s2, sb2 = 18, sb - 1
+        elif s >= 1 and sb <= 0:
+            s2, sb2 = s - 1, 18
+        else:
+            s2, sb2 = (s + 1 if s < 18 else s), (sb - 1 if sb > 0 else sb)
+        v[i2] = "D%d:%d" % (cb, sb2)
+    elif k == 10:
+        # the same operands through a sibling entry point (shared helpers, memo shared between types)
+        op = toks[0]
+        if op == "toint":
+            v[1] = rng.choice([t for t in _TOINT_TYPES if t != toks[1]])
+            return v
+        if op in _ALIAS_OPS:
+            v[0] = _ALIAS_OPS[op]
+            if v[0].startswith("c") and len(v) > 1 and v[1] in _FORM_FOR_CHECKED:
+                v[1] = _FORM_FOR_CHECKED[v[1]]
+            return v
+        return None
+    else:
+        return list(toks)                                        # plain repeat
+    if not (0 <= s2 <= 18 and abs(c2) <= M):
+        return None
+    v[i] = "D%d:%d" % (c2, s2)
+    return v
+
+
+def add_locality(reqs, rng, p=0.03):
+    """Temporal locality: now and then a request is followed by a close relative and then by itself again - a repeat; one
+    Decimal operand with the scale changed by one, the coefficient shifted by a multiple of 2^32 / 2^64 / 2^96, a high or
+    random bit flipped, +-1, negated, re-expressed with a trailing zero; xor-fold twins (the same delta in both 64-bit
+    limbs, limbs swapped); a coordinated change of two operands; two scales changed together the way a mixed-radix key
+    with a radix one too small confuses them; the same operands through a sibling entry point (checked_*, the other
+    float / integer type, String::from); the same request under another thread rounding mode - in the patterns A B A,
+    A B C D A, A B A B A A. Every line is still judged on its own by the exact oracle; the point is the *sequence*: a
+    memo, cache or lazily initialised table keyed on part of the operands (and any other state carried from one call
+    to the next) returns a relative's answer for the original."""
     out = []
     cur = O.DEFAULT_MODE
     for r in reqs:
@@ -234,58 +338,88 @@ def add_locality(reqs, rng, p=0.03):
         if rng.random() >= p:
             continue
         toks = r.split(" ")
+        if toks[0] in ("fromf64", "fromf32") and len(toks) == 2:
+            # float requests carry a bit pattern: neighbours, a flipped bit, and the same raw bits as the other type
+            b = int(toks[1])
+            width = 64 if toks[0] == "fromf64" else 32
+            k = rng.randrange(4)
+            if k == 0 and b < (1 << 32):
+                rel = "%s %d" % ("fromf32" if width == 64 else "fromf64", b)
+            elif k == 1:
+                rel = "%s %d" % (toks[0], b ^ (1 << rng.randrange(0, width)))
+            elif k == 2:
+                rel = "%s %d" % (toks[0], (b + rng.choice((1, -1))) % (1 << width))
+            else:
+                rel = r
+            out += [rel, r] if rng.random() < 0.6 else [rel, r, rel, r, r]
+            continue
         if toks[0] not in LOCALITY_OPS:
             continue
-        if rng.random() < 0.12:
+        if rng.random() < 0.1:
             # the same request again under another thread rounding mode, and once more under the original one
-            # (state that survives a mode change)
             other = rng.choice([m for m in O.MODES if m != cur])
             out += ["mode " + other, r, "mode " + cur, r]
             continue
         idx = [i for i, t in enumerate(toks) if _DTOK.match(t)]
         if not idx:
             continue
-        k = rng.randrange(8)
-        if k == 0:
-            out.append(r)
+        v = _relative(rng, toks, idx)
+        if v is None:
             continue
-        i = rng.choice(idx)
-        m = _DTOK.match(toks[i])
-        c, s = int(m.group(1)), int(m.group(2))
-        if k == 1:
-            s2 = s + rng.choice((1, -1))
-            c2 = c
-        elif k == 2:
-            c2, s2 = c + rng.choice((1, -1, 3)) * (1 << rng.choice((64, 64, 32, 96))), s
-        elif k == 3:
-            c2, s2 = -c, s
-        elif k == 4:
-            c2, s2 = c * 10, s + 1
-        elif k == 5:
-            # one of the top bits flipped (a key that drops the high bits of the coefficient)
-            a = abs(c) ^ (1 << rng.randrange(112, 127))
-            c2, s2 = (a if c >= 0 else -a), s
-        elif k == 6:
-            # any single bit flipped
-            a = abs(c) ^ (1 << rng.randrange(0, 127))
-            c2, s2 = (a if c >= 0 else -a), s
+        rel = " ".join(v)
+        z = rng.random()
+        if z < 0.6:
+            out += [rel, r]                                       # A B A
+        elif z < 0.8:
+            out += [rel, r, rel, r, r]                            # A B A B A A
         else:
-            c2, s2 = c + rng.choice((1, -1)), s
-        if not (0 <= s2 <= 18 and abs(c2) <= M):
-            continue
-        v = list(toks)
-        v[i] = "D%d:%d" % (c2, s2)
-        out.append(" ".join(v))
-        if rng.random() < 0.25:
-            # a longer chain: two or three more relatives of the relative before the original comes back
+            chain = [rel]                                         # A B C D A
             for _ in range(rng.randrange(2, 4)):
-                c2 = c2 + rng.choice((1, -1, 1 << 64, -(1 << 64), 10, -10))
-                s3 = min(18, max(0, s2 + rng.choice((0, 0, 1, -1))))
-                if abs(c2) <= M:
-                    v[i] = "D%d:%d" % (c2, s3)
-                    out.append(" ".join(v))
-        out.append(r)
+                w = _relative(rng, v, [i for i, t in enumerate(v) if _DTOK.match(t)])
+                if w is not None:
+                    v = w
+                    chain.append(" ".join(v))
+            out += chain + [r]
     return out
+
+
+COLD_THREADS = 8
+
+
+def cold_start(prop, reqs, rng, bins, wdir, shard, st):
+    """Cold-start monitor: a fresh process in which COLD_THREADS threads, released together by a spin gate, execute the
+    same short request list as their very first library calls; every thread's every answer is judged by the property's
+    exact oracle. This is where lazily initialised process-wide state (tables, once-flags) is built under contention."""
+    pool = [r for r in reqs if not r.startswith(("mode ", "getmode", "counts"))]
+    if not pool:
+        return
+    for _round in range(2):
+        sample = [rng.choice(pool) for _ in range(12)]
+        reqfile = os.path.join(wdir, "cold%d.req" % shard)
+        with open(reqfile, "w") as f:
+            f.write("\n".join(sample) + "\n")
+        for bname, binary in bins:
+            outfile = os.path.join(wdir, "cold%d.%s.out" % (shard, bname))
+            try:
+                p = subprocess.run([binary, "--cold", str(COLD_THREADS), reqfile, outfile], stdout=subprocess.PIPE,
+                                   stderr=subprocess.PIPE, timeout=120)
+            except subprocess.TimeoutExpired:
+                st.errors.append("watchdog: cold-start probe %s timed out" % bname)
+                continue
+            if p.returncode != 0:
+                st.errors.append("cold-start probe %s exited with %d: %s" % (bname, p.returncode, p.stderr[-300:].decode("utf-8", "replace")))
+                continue
+            threads = []
+            for line in open(outfile).read().split("\n"):
+                if line.startswith("#T "):
+                    threads.append([])
+                elif line == "#THREAD-DIED":
+                    st.errors.append("cold-start probe %s: a thread died" % bname)
+                elif line and threads:
+                    threads[-1].append(line)
+            for lines in threads:
+                if len(lines) == len(sample):
+                    judge_batch(prop, sample, lines, bname + ":cold", st)
 
 
 def _worker(args):
@@ -313,6 +447,8 @@ def _worker(args):
                     reqs = ["mode " + other] + reqs[:h] + ["mode " + O.DEFAULT_MODE] + reqs[h:]
                 else:
                     reqs = reqs[:h] + ["mode " + other] + reqs[h:] + ["mode " + O.DEFAULT_MODE]
+            if getattr(prop, "COLD_START", True) and (batch == 0 or (tier == "thorough" and batch < 12)):
+                cold_start(prop, reqs, rng, bins, wdir, shard, st)
             if getattr(prop, "LOCALITY", True):
                 reqs = add_locality(reqs, rng)
             reqs = reqs + ["counts"]
@@ -455,7 +591,7 @@ def finish(prop, tier, seed, st, t0, extra, extra_coverage=None):
     for l in lines:
         print(l)
     print("%s %s tier=%s seed=%d: %d events, %d distinct non-trivial, %d builds, %.1fs -> %s"
-          % (pid, prop.TITLE, tier, seed, st.evaluations, len(st.nontrivial), len(st.per_build), time.time() - t0, ev["verdict"]))
+          % (pid, prop.TITLE, tier, seed, st.evaluations, len(st.nontrivial), len([b for b in st.per_build if not b.endswith(":cold")]), time.time() - t0, ev["verdict"]))
     sys.stdout.flush()
     return code, ev
 
